@@ -115,7 +115,16 @@ class Engine:
         persistent pre-hooks and double faults (fault during rollback)."""
         F = self.F
         clean = self.one(family, ch, call, ("none",))
-        if clean is None or not self.faults or level == 0:
+        if clean is None:
+            return
+        # restricted re-entrancy (parent assignments only): a pre hook that detaches another child of its
+        # parent argument, e.g. a bounded parent evicting its oldest child
+        if call[0] == "setparent" and clean.snaps and clean.snaps[0] is not None:
+            for i in range(len(clean.events)):
+                kind, n, arg = clean.events[i]
+                if kind in ("pre_attach", "pre_detach") and isinstance(arg, int) and len(clean.snaps[i][arg][1]) > (1 if kind == "pre_detach" else 0):
+                    self.one(family, ch, call, ("evict", i))
+        if not self.faults or level == 0:
             return
         k = len(ch)
         nclean = len(clean.events)
